@@ -1,4 +1,5 @@
 """C06 — truthful, stable final state; the experiment exits."""
-FUNCS = ["Job.dependencychanged", "Dependency.check", "Scheduler.aio_registerJob", "JobDependency.status"]
+FUNCS = ["Job.dependencychanged", "Dependency.check", "Scheduler.aio_registerJob", "JobDependency.status",
+         "Scheduler.aio_submit", "Scheduler.aio_start"]
 LEVEL = "proof"
 TRUSTED = []
